@@ -250,6 +250,14 @@ VERIF_TARGET(c01_supply, nullptr, 48, 1000,
             }
             if (want.empty()) { st.cls("fault-skipped"); continue; }
             sim.Finalize(bad);
+            {
+                // the model decides: the block must violate a value rule of the model, else the case is dropped (never asserted)
+                sim.Register(std::make_shared<const CBlock>(bad));
+                RefReplay mr = sim.ledger.Replay(bad.GetHash());
+                bool agrees = !mr.ok && ((mr.why == "coinbase-overpays" && want == "bad-cb-amount") || (mr.why == "in-below-out" && want == "bad-txns-in-belowout") ||
+                                         (mr.why == "value-out-of-range" && want.rfind("bad-txns-vout", 0) == 0) || (mr.why == "value-out-of-range" && want == "bad-txns-txouttotal-toolarge"));
+                if (!agrees) { st.cls("fault-degenerate"); st.note("degenerate fault ", label, " model says ", mr.ok ? "valid" : mr.why); continue; }
+            }
             if (s.boolean()) {
                 BlockValidationState tv = sim.TestValidity(bad);
                 st.steps++;
